@@ -44,7 +44,7 @@ META = {
     "level_note": "Trusted: the in-process executor (C30/C31), vf/session.py.",
 }
 PLAN = {
-    "quick": {"shards": 16, "examples": 640},
+    "quick": {"shards": 16, "examples": 480, "timeout": 3000},
     "thorough": {"shards": 16, "examples": 16000, "timeout": 3000},
 }
 
